@@ -82,6 +82,12 @@ def _creations(ctx, F):
     ctx.evaluations += len(reach)
     for f in reach.values():
         ctx.fns_seen.add(f.path)
+    # WMC-C19d: opening never creates: a creation on the caller's own path is reachable from Memvid::create* only, not from the
+    # open entry points (a failing open of a path that does not exist must leave the directory as it was)
+    ctx.rule('WMC-C19d', 'no file creation on the caller\'s own path is reachable from Memvid::open / open_read_only* (only create may bring the file into existence)')
+    open_roots = [g for g in F.fns.values() if g.name in ('open', 'open_read_only', 'open_read_only_with_options', 'open_locked') and 'lifecycle' in g.path and 'Memvid' in g.path]
+    reach_open = lib.reachable_fns(F, open_roots)
+    own_in_open = []
     n = 0
     for f in sorted(reach.values(), key=lambda x: x.path):
         for c in f.calls():
@@ -108,7 +114,16 @@ def _creations(ctx, F):
                         line=c.line, sink=c.key, detail='sidecar-path:' + why)
             else:
                 ctx.ok('PROV-C19a', f, '%s on the caller\'s path itself (no derived name)' % c.key.split('::')[-1], line=c.line)
+                if f.path in reach_open:
+                    own_in_open.append((f, c))
     ctx.floor('PROV-C19a', n, 3, 'file-system creation sites reachable from the API')
+    ctx.floor('WMC-C19d', len(open_roots), 3, 'open entry points of Memvid (4 counted)')
+    ctx.evaluations += len(reach_open)
+    for f, c in own_in_open:
+        ctx.bad('WMC-C19d', f, '%s can create the caller\'s path and is reachable from the open entry points: a failing open of a missing path leaves a stray file behind' % c.key,
+                line=c.line, sink=c.key, detail='creating-open-reachable-from-open')
+    if open_roots and not own_in_open:
+        ctx.ok('WMC-C19d', open_roots[0], 'no creation on the caller\'s own path among %d functions reachable from %d open entry points' % (len(reach_open), len(open_roots)))
 
 
 def _pair(ctx, F):
